@@ -16,7 +16,7 @@ import (
 func init() {
 	register(&Rule{
 		Name:     "RAWWIDTH",
-		Doc:      "in thrift/generic, every BinaryEncoding{}.Decode<K> call on bytes fabricated from the node's own pointer (rt.BytesFrom over field `v`, forward offsets only) is control-dependent on the node's length field: a dominating `self.l < k` (false edge) with k >= the decoded width (1/2/4/8; 4 for a size prefix), or — for DecodeString/DecodeBytes, whose result length comes from the data — a validator call that reads `l` and the decoded size prefix; otherwise a node over short or hostile bytes is read past the caller's buffer",
+		Doc:      "in thrift/generic, every BinaryEncoding{}.Decode<K> call on bytes fabricated from the node's own pointer (rt.BytesFrom over field `v`, forward offsets only) is control-dependent on the node's length field: a dominating `self.l < k` (false edge) with k >= the constant offset of the decode inside the node plus the decoded width (1/2/4/8; 4 for a size prefix), or — for DecodeString/DecodeBytes, whose result length comes from the data — a validator call that reads `l` and the decoded size prefix; otherwise a node over short or hostile bytes is read past the caller's buffer",
 		Configs:  "NP",
 		Floor:    map[string]int{"N": 10, "P": 10},
 		Controls: 1,
@@ -26,16 +26,18 @@ func init() {
 
 var decodeWidth = map[string]int64{"DecodeBool": 1, "DecodeByte": 1, "DecodeInt16": 2, "DecodeInt32": 4, "DecodeInt64": 8, "DecodeDouble": 8, "DecodeString": 4, "DecodeBytes": 4}
 
-// fromOwnPointer: v is rt.BytesFrom(p, …) with p derived from a load of a field named v by forward steps.
-func fromOwnPointer(v ssa.Value) bool {
+// fromOwnPointer: v is rt.BytesFrom(p, …) with p derived from a load of a field named v by forward steps;
+// also returns the constant byte offset added on the way (0 if none / unknown).
+func fromOwnPointer(v ssa.Value) (bool, int64) {
 	c, ok := v.(*ssa.Call)
 	if !ok {
-		return false
+		return false, 0
 	}
 	cal := c.Call.StaticCallee()
 	if cal == nil || cal.Name() != "BytesFrom" || len(c.Call.Args) == 0 {
-		return false
+		return false, 0
 	}
+	var off int64
 	var walk func(p ssa.Value, d int) bool
 	walk = func(p ssa.Value, d int) bool {
 		if d > 6 {
@@ -48,10 +50,18 @@ func fromOwnPointer(v ssa.Value) bool {
 			return walk(x.X, d+1)
 		case *ssa.BinOp:
 			if x.Op == token.ADD {
+				if k, isC := constInt(convRoot(x.Y)); isC {
+					off += k
+				}
 				return walk(x.X, d+1)
 			}
 		case *ssa.Call:
 			if cc := x.Call.StaticCallee(); cc != nil && (cc.Name() == "AddPtr" || cc.Name() == "IndexPtr") && len(x.Call.Args) > 0 {
+				if cc.Name() == "AddPtr" && len(x.Call.Args) > 1 {
+					if k, isC := constInt(convRoot(x.Call.Args[1])); isC {
+						off += k
+					}
+				}
 				return walk(x.Call.Args[0], d+1)
 			}
 		default:
@@ -61,7 +71,7 @@ func fromOwnPointer(v ssa.Value) bool {
 		}
 		return false
 	}
-	return walk(c.Call.Args[0], 0)
+	return walk(c.Call.Args[0], 0), off
 }
 
 // readsLenAndSize: a bool validator that loads a field `l` and decodes a size prefix.
@@ -106,9 +116,14 @@ func runRawWidth(rc *RuleCtx) {
 					continue
 				}
 				w, ok := decodeWidth[cal.Name()]
-				if !ok || len(c.Call.Args) < 2 || !fromOwnPointer(c.Call.Args[1]) {
+				if !ok || len(c.Call.Args) < 2 {
 					continue
 				}
+				own, off := fromOwnPointer(c.Call.Args[1])
+				if !own {
+					continue
+				}
+				w += off // the decode starts `off` bytes into the node
 				rc.Examined++
 				needValidator := cal.Name() == "DecodeString" || cal.Name() == "DecodeBytes"
 				good := false
